@@ -53,11 +53,11 @@ function mk (spec) {
     },
     requests (leaf) {
       if (spec.requests) return spec.requests(leaf)
-      return [{ config: leafConfig(leaf), file: leafFile(leaf), code: leafCode(leaf), want: WANT }]
+      return [{ config: spec.configOf ? spec.configOf(leaf) : leafConfig(leaf), file: leafFile(leaf), code: leafCode(leaf), want: WANT }]
     },
     async check (leaf, resps, ctx) {
       const r = resps[0]
-      const config = leafConfig(leaf)
+      const config = spec.configOf ? spec.configOf(leaf) : leafConfig(leaf)
       const a = analyse(r, config)
       const res = { nontrivial: false, outcome: r.status === 'ok' ? (a.modified ? 'modified' : 'notmodified') : 'rejected:' + r.status, violations: [], distinctKey: leafCode(leaf) + '|' + JSON.stringify(config) + '|' + leafFile(leaf) }
       const v = (rule, sig, detail) => res.violations.push({ rule, sig, detail: detail + '\n  leaf: ' + describe(leaf) })
